@@ -1509,7 +1509,28 @@ where
                 } else {
                     Cow::Owned(env::current_dir()?.join(dname))
                 };
-                helpers::normpath(&dname).into_owned()
+                // Like Python's os.path.realpath: resolve the longest leading part
+                // that exists and keep the rest as spelled, so that a directory that
+                // is yet to be created below a symlinked one gets the same name
+                // through the link and through the real path.
+                let comps: Vec<path::Component> = dname.components().collect();
+                let mut resolved = None;
+                for k in (1..comps.len()).rev() {
+                    let prefix: PathBuf = comps[..k].iter().collect();
+                    match prefix.canonicalize() {
+                        Ok(mut path) => {
+                            path.extend(comps[k..].iter());
+                            resolved = Some(path);
+                            break;
+                        }
+                        Err(e) if e.kind() == io::ErrorKind::NotFound => {}
+                        Err(e) => return Err(e),
+                    }
+                }
+                match resolved {
+                    Some(path) => helpers::normpath(&path).into_owned(),
+                    None => helpers::normpath(&dname).into_owned(),
+                }
             }
             Err(e) => return Err(e),
         };
